@@ -362,15 +362,21 @@ func loadKnown() {
 	if p == "" {
 		p = "/verif/known_findings.json"
 	}
-	b, err := os.ReadFile(p)
-	if err != nil {
-		return
-	}
-	var doc struct {
-		Findings []Finding `json:"findings"`
-	}
-	if json.Unmarshal(b, &doc) == nil {
-		known = doc.Findings
+	paths := []string{p}
+	more, _ := filepath.Glob(filepath.Join(filepath.Dir(p), "known_findings.d", "*.json"))
+	sort.Strings(more)
+	paths = append(paths, more...)
+	for _, p := range paths {
+		b, err := os.ReadFile(p)
+		if err != nil {
+			continue
+		}
+		var doc struct {
+			Findings []Finding `json:"findings"`
+		}
+		if json.Unmarshal(b, &doc) == nil {
+			known = append(known, doc.Findings...)
+		}
 	}
 }
 
